@@ -738,7 +738,11 @@ def Norm(array: FeArray.FeArrayALike, **kwargs) -> FeArray.FeArrayALike:
     res: FeArray.FeArrayALike = np.linalg.norm(array, **kwargs)
 
     if isinstance(array, FeArray):
-        res = FeArray.asfearray(res)
+        # a norm is a reduction: the result is a field only when the (Ne, nPg) axes survive it
+        if _KeepsFeAxes(kwargs.get("axis"), array.ndim):
+            res = FeArray.asfearray(res)
+        else:
+            res = np.asarray(res)
 
     return res
 
